@@ -125,3 +125,27 @@ def parse_matrix(out):
     """'ok rows=0,1;2,3;' -> list of sets"""
     body = out.split('rows=', 1)[1]
     return [set(int(x) for x in r.split(',') if x != '') for r in body.split(';')[:-1]]
+
+def determined_symbols(H, K, n):
+    """the unknown symbols whose value is the same in every solution of the checks given the known symbols K:
+    reduced row echelon form of H restricted to the unknown columns; a symbol is determined iff it is a pivot column whose
+    row has no entry in a free column"""
+    unk = sorted(set(range(n)) - set(K))
+    idx = {e: i for i, e in enumerate(unk)}
+    rows = []
+    for row in H:
+        v = 0
+        for e in row:
+            if e in idx: v |= 1 << idx[e]
+        if v: rows.append(v)
+    piv = {}; rk = 0
+    for c in range(len(unk)):
+        p = next((i for i in range(rk, len(rows)) if rows[i] >> c & 1), None)
+        if p is None: continue
+        rows[rk], rows[p] = rows[p], rows[rk]
+        for i in range(len(rows)):
+            if i != rk and rows[i] >> c & 1: rows[i] ^= rows[rk]
+        piv[c] = rk; rk += 1
+    free = [c for c in range(len(unk)) if c not in piv]
+    fmask = sum(1 << c for c in free)
+    return set(unk[c] for c, r in piv.items() if rows[r] & fmask == 0)
